@@ -297,7 +297,14 @@ Example C03_excluded_content_removed_nonvacuous :
      /\ Blocks.render Strict DesugarWitness.ex_c0 (Blocks.rw_id r) = Blocks.RErr Blocks.Undefined
      /\ Desugar.ds Strict 50 rest DesugarWitness.ex_c0 Blocks.BBlock true = Blocks.ROk ([], skipn 11 DesugarWitness.ex_rows)
      /\ Desugar.ds Strict 50 (skipn 6 DesugarWitness.ex_rows) DesugarWitness.ex_c0 Blocks.BFor false
-        = Blocks.ROk ([], skipn 13 DesugarWitness.ex_rows)).
+        = Blocks.ROk (DesugarWitness.ex_only_a, skipn 15 DesugarWitness.ex_rows))
+  (* comparison cells (rows 12, 13 of the witness sheet): {{ x == "a" }} holds in the first copy of the body only; the
+     index variable is an int and never equals the str "0" (although it renders as 0); an unknown name is an error *)
+  /\ (Blocks.eval_inc Strict DesugarWitness.ex_c0 (Blocks.rw_inc (nth 12 DesugarWitness.ex_rows Desugar.end_row)) = Blocks.ROk true
+      /\ Blocks.eval_inc Strict DesugarWitness.ex_c1 (Blocks.rw_inc (nth 12 DesugarWitness.ex_rows Desugar.end_row)) = Blocks.ROk false
+      /\ Blocks.eval_inc Strict DesugarWitness.ex_c0 (Blocks.rw_inc (nth 13 DesugarWitness.ex_rows Desugar.end_row)) = Blocks.ROk false
+      /\ Blocks.render Strict DesugarWitness.ex_c0 [Blocks.Ref DesugarWitness.n_i] = Blocks.ROk DesugarWitness.n_0
+      /\ Blocks.eval_inc Strict DesugarWitness.ex_ctx (Blocks.rw_inc (nth 12 DesugarWitness.ex_rows Desugar.end_row)) = Blocks.RErr Blocks.Undefined).
 Proof. exact DesugarWitness.excluded_content_nonvacuous. Qed.
 Print Assumptions C03_excluded_content_removed_nonvacuous.
 
@@ -378,9 +385,9 @@ Example C03_nesting_composes_nonvacuous :
     /\ Desugar.nested_bodies_of Strict 40 (nth 2 DesugarWitness.ex_rows Desugar.end_row) (skipn 3 DesugarWitness.ex_rows)
          DesugarWitness.ex_ctx DesugarWitness.n_x (Some DesugarWitness.n_i) DesugarWitness.ex_outer_elems
          DesugarWitness.n_cx [DesugarWitness.n_x] DesugarWitness.ex_heads DesugarWitness.ex_inner DesugarWitness.ex_tails
-         (skipn 13 DesugarWitness.ex_rows)
-    /\ Desugar.ds Strict 41 (skipn 13 DesugarWitness.ex_rows) DesugarWitness.ex_ctx Blocks.BRoot false
-       = Blocks.ROk (skipn 13 DesugarWitness.ex_out, [])
+         (skipn 15 DesugarWitness.ex_rows)
+    /\ Desugar.ds Strict 41 (skipn 15 DesugarWitness.ex_rows) DesugarWitness.ex_ctx Blocks.BRoot false
+       = Blocks.ROk (skipn 14 DesugarWitness.ex_out, [])
     /\ Desugar.ds Strict 42 (skipn 1 DesugarWitness.ex_rows) DesugarWitness.ex_ctx Blocks.BRoot false
        = Blocks.ROk (skipn 1 DesugarWitness.ex_out, []).
 Proof. exact DesugarWitness.nested_loops_nonvacuous. Qed.
@@ -388,13 +395,13 @@ Print Assumptions C03_nesting_composes_nonvacuous.
 
 Example C03_loop_over_nothing_is_an_empty_block_nonvacuous :
   exists row,
-    Desugar.loop_head Strict DesugarWitness.ex_ctx (nth 13 DesugarWitness.ex_rows Desugar.end_row) row DesugarWitness.n_y []
+    Desugar.loop_head Strict DesugarWitness.ex_ctx (nth 15 DesugarWitness.ex_rows Desugar.end_row) row DesugarWitness.n_y []
     /\ Blocks.i_iter row = []
-    /\ Desugar.ds Strict 40 (skipn 14 DesugarWitness.ex_rows) DesugarWitness.ex_ctx Blocks.BFor true
-       = Blocks.ROk ([], skipn 16 DesugarWitness.ex_rows)
-    /\ Desugar.ds Strict 40 (skipn 16 DesugarWitness.ex_rows) DesugarWitness.ex_ctx Blocks.BRoot false
+    /\ Desugar.ds Strict 40 (skipn 16 DesugarWitness.ex_rows) DesugarWitness.ex_ctx Blocks.BFor true
+       = Blocks.ROk ([], skipn 18 DesugarWitness.ex_rows)
+    /\ Desugar.ds Strict 40 (skipn 18 DesugarWitness.ex_rows) DesugarWitness.ex_ctx Blocks.BRoot false
        = Blocks.ROk (DesugarWitness.ex_after_loops, [])
-    /\ Desugar.ds Strict 41 (skipn 13 DesugarWitness.ex_rows) DesugarWitness.ex_ctx Blocks.BRoot false
+    /\ Desugar.ds Strict 41 (skipn 15 DesugarWitness.ex_rows) DesugarWitness.ex_ctx Blocks.BRoot false
        = Blocks.ROk (DesugarWitness.ex_empty_block, []).
 Proof. exact DesugarWitness.empty_loop_nonvacuous. Qed.
 Print Assumptions C03_loop_over_nothing_is_an_empty_block_nonvacuous.
